@@ -24,6 +24,18 @@ CLAIMED = {
               "values themselves (they are what the C++ compiler computes once operator and operand types are right)."),
         technique="custom AST dataflow/dominance rules over a libTooling fact extractor (all template instantiations), table cross-checks",
         ref="DESIGN.md section 4 C05"),
+    "C09": dict(
+        text=("Decides the first sentence of the property in full for stack *shape* (scope stack, call-frame stack, call depth, "
+              "saved-parameter lists): an effect analysis of every function body on Stack_Holder's shape fields, summarised "
+              "through the resolved call graph, shows that only holder/engine primitives and RAII guard constructors/"
+              "destructors have a non-zero net effect; each guard's destructor is the exact inverse of its constructor on the "
+              "same holder with nothing throwing in between; primitives are called from nowhere else; guard objects exist "
+              "only as automatic locals (no heap, member, static, temporary, copy or move). By the C++ destructor guarantee "
+              "the shape is then restored on every exit path, normal or exceptional, at every throw point. Also: declarations "
+              "insert into the innermost scope only; saved parameters are cleared and conversion saves toggled exactly when "
+              "the call depth crosses 0. Not decided: value-level visibility of completed top-level declarations."),
+        technique="interprocedural effect summaries over resolved call graph + who-may-call/who-may-write + RAII typestate (automatic-storage-only) rules",
+        ref="DESIGN.md section 4 C09"),
 }
 
 NOT_YET = "check not built yet in this session (design in DESIGN.md section 4); will be claimed once its rules run clean both ways"
